@@ -15,7 +15,7 @@ RULE = ("a fake usb1 module (scripted per the python-libusb1 documentation: shor
         "device simulator. direct: random device sets (non-ADB devices, several settings, random interface numbers and endpoint addresses); find_adb by serial / port path / "
         "first; connect() must claim the matched setting's interface before any transfer; writes must use the OUT endpoint, reads the IN endpoint; timeout == int(t*1000) or "
         "the default (constructor value, else 10 s) for None; reads return <= n bytes in order; use after close() raises UsbReadFailedError/UsbWriteFailedError. fault: a "
-        "backend error injected at EVERY transfer index of a device session surfaces as UsbReadFailedError / UsbWriteFailedError. session: a scenario through AdbDeviceUsb "
+        "backend error injected at EVERY transfer index of a device session surfaces as UsbReadFailedError / UsbWriteFailedError (timeouts may carry partial data); after every fault the same object is closed and connected again and must reproduce the fault-free session; short transfers may move 0 bytes and the backend refuses transfers on an unclaimed interface. session: a scenario through AdbDeviceUsb "
         "passes the same result oracles and produces the same host packets as over the in-memory transport. "
         "non-trivial = at least one transfer checked; distinct = distinct (kind, parameters) signatures")
 ASSUMPTIONS = ["the fake backend is the specification of a conforming libusb (python-libusb1 README/docstrings)", "transport_timeout_s=0 maps to libusb's 0 = no timeout; only the value handed over is checked"]
